@@ -275,7 +275,7 @@ func (r *Runner) mval(tok string) any {
 	case 0:
 		return map[string]any{"m1": "s1", "m2": "s2"}[tok]
 	case 1:
-		return map[string]any{"m1": float64(7), "m2": "s2"}[tok]
+		return map[string]any{"m1": float64(7), "m2": nil}[tok] // m2: a JSON null is a value like any other (the key is present)
 	default:
 		return map[string]any{"m1": true, "m2": float64(-2.5)}[tok]
 	}
